@@ -78,7 +78,11 @@ func HC15_Reset() {
 				}
 			} else {
 				// second step: fixed arguments
-				switch vChoice("op2", 5) {
+				op2 := vChoice("op2", 5)
+				// the operations that address an existing entity need one in the restarted model
+				// (after the second reset the model is empty: slots of the arrays are stale there)
+				vAssume(op2 == 0 || op2 == 2 || x.n > 0)
+				switch op2 {
 				case 0:
 					x.opNewEntityWith(1 << uA)
 				case 1:
